@@ -14,6 +14,7 @@ the allocation invariant `MapWF` (every stored future id has been allocated) in 
 The literal 2 is the property's constant; the model takes its factor from the regenerated source facts
 (`rotFactor`), so a changed source constant breaks these proofs. -/
 import Got.Lemmas.CacheSweep
+import Got.Lemmas.CacheInv
 open Got.Model.CacheCore Got.Model.Cache Got.Spec.Cache Got.Lemmas.Cache
 
 /-- the status function, outright: for all clocks, completion times, both expiries -/
@@ -211,6 +212,11 @@ example : ∃ s f r, ((s : State).fut f).res = some r ∧ 2 * futExpiry exCfg r 
 theorem C05_sweep_invisible_client (cfg : Cfg) (s t : State) (h : SweepEq cfg s t) (ws : MapWF s) (wt : MapWF t)
     (c : Cid) : OptRel (SweepEq cfg) (clStep cfg s c) (clStep cfg t c) :=
   sweepEq_clStep cfg s t h ws wt c
+
+/-- the allocation hypothesis `MapWF` of C05_sweep_invisible_client holds in every reachable state -/
+theorem C05_sweep_invisible_wf (cfg : Cfg) (s : State) (hr : Reachable cfg s) : MapWF s := by
+  have h := inv_reachable cfg s hr
+  exact ⟨h.a_map, fun c f hc => h.a_pc c f (by rw [hc]; simp [pcFuts])⟩
 
 theorem C05_sweep_invisible_outputs (cfg : Cfg) (s t : State) (h : SweepEq cfg s t) (c : Cid) (o : Out) :
     s.cpc c = .done o ↔ t.cpc c = .done o :=
